@@ -10,7 +10,7 @@ Funs3 == BuiltinNames \ {"now", "toDay"}
 AllBinOps == BinOps \cup {","}
 Vals3x == Vals3 \cup {Id("im"), Id("ps"), Id("tm")}
 Callees3 == Funs3 \cup {"rec", "fail", "failv", "add2", "cat", "nl", "np", "i", "s", "m", "undefined", "st"}
-GroupsC03 == { <<"call", f>> : f \in Callees3 } \cup { <<"bin", op>> : op \in AllBinOps } \cup { <<"misc">> }
+GroupsC03 == { <<"call", f>> : f \in Callees3 } \cup { <<"bin", op>> : op \in AllBinOps } \cup { <<"misc">> } \cup { <<"alias">> }
              \cup { <<"call3", f>> : f \in {"mid", "lpad", "rpad", "replace", "date", "left", "max", "addDate", "roundCash"} }
 GroupProgramsC03(g) ==
   CASE g[1] = "call" ->
@@ -19,6 +19,19 @@ GroupProgramsC03(g) ==
          \cup { <<"Call", Id(g[2]), <<a, b>>, sp>> : a \in Vals3s, b \in Vals3s, sp \in BOOLEAN }
     [] g[1] = "call3" -> { <<"Call", Id(g[2]), <<a, b, c>>, FALSE>> : a \in Vals3s, b \in Vals3s, c \in Vals3s }
     [] g[1] = "bin" -> { <<"Bin", g[2], a, b>> : a \in Vals3x, b \in Vals3x }
+    \* a local bound to the data map itself (or to an array holding it) makes the map reachable from itself; whatever is
+    \* done with such a value afterwards, evaluation still ends in a value or an error
+    [] g[1] = "alias" ->
+         LET Holders == { KwL("this"), <<"Arr", <<KwL("this")>>>>, <<"Arr", <<N(1), <<"Arr", <<KwL("this")>>>>>>>> }
+             SeqA(h, e) == <<"Bin", ",", <<"Bin", "=", Id("$a"), h>>, e>>
+         IN { SeqA(h, <<"Call", Id(f), <<Id("$a")>>, FALSE>>) : h \in Holders, f \in Funs3 }
+            \cup { SeqA(h, <<"Call", Id(f), <<KwL("this")>>, sp>>) : h \in Holders, f \in Funs3, sp \in BOOLEAN }
+            \cup { SeqA(h, <<"Call", Id(f), <<Id("$a"), N(1)>>, FALSE>>) : h \in Holders, f \in {"lpad", "find", "join", "includes", "left", "max", "cat", "rec"} }
+            \cup { SeqA(h, <<"Bin", op, Id("$a"), b>>) : h \in Holders, op \in AllBinOps \ {","}, b \in {S(<<97>>), N(1), Id("$a"), KwL("this")} }
+            \cup { SeqA(h, <<"Bin", op, S(<<97>>), Id("$a")>>) : h \in Holders, op \in {"+", "==", "<"} }
+            \cup { SeqA(h, <<"Pre", op, Id("$a")>>) : h \in Holders, op \in PrefixOps }
+            \cup { SeqA(h, e) : h \in Holders, e \in { <<"Typeof", Id("$a")>>, <<"Sel", <<"Sel", Id("$a"), "$a", FALSE>>, "x", FALSE>>, <<"Arr", <<Id("$a"), KwL("this")>>>>,
+                                                        <<"Cond", Id("$a"), Id("$a"), N(1)>> } }
     [] g[1] = "misc" ->
          { <<"Pre", op, a>> : op \in PrefixOps, a \in Vals3x }
          \cup { <<"Typeof", a>> : a \in Vals3 }
